@@ -35,8 +35,11 @@ ASSUMPTIONS = ["trusted base: the recipe->object builder of this module (hostile
                "BaseException subclasses outside Exception are never raised by generated objects (by design)"]
 SHARDS = {"quick": 4, "thorough": 16}
 FLOORS = {"calls_returned_text": 20000, "events_hostile": 2000, "hostile_ops_triggered": 2000,
-          "fallback_texts": 500, "legacy_calls": 1000, "events_with_failure": 300,
-          "nested_spec_fields_on_hostile_values": 300, "conversions_on_hostile_repr_or_str": 300}
+          "fallback_texts": 500, "legacy_calls": 3000, "events_with_failure": 300,
+          "nested_spec_fields_on_hostile_values": 300, "conversions_on_hostile_repr_or_str": 300,
+          "legacy_branch_error": 1000, "legacy_branch_format": 1000, "legacy_branch_message": 500, "legacy_hostile_why": 400,
+          "legacy_hostile_failure": 300, "legacy_hostile_message_items": 300, "legacy_hostile_format_keys": 80,
+          "legacy_hostile_system_via_format_key": 30, "legacy_hostile_time_via_format_key": 20}
 READY = True
 
 EXC = ["ValueError", "TypeError", "KeyError", "AttributeError", "IndexError", "RuntimeError",
@@ -87,6 +90,8 @@ class H:
         return self._do("repr", "<H>")
 
     def __format__(self, spec):
+        if "format" not in self._beh:   # like object.__format__: format(str(self), spec)
+            return format(str(self), spec)
         return self._do("format", "H-fmt")
 
     def __getattr__(self, name):
@@ -288,7 +293,8 @@ def g_pformat(rng):
     parts = []
     for _ in range(rng.randrange(4)):
         parts.append(rng.choice(["", "text ", "%%", "%", "{a}", "\n"]))
-        parts.append(rng.choice(["%(a)s", "%(b)r", "%(obj)s", "%(missing)s", "%(a)d", "%(n)5.2f", "%s", "%(a)", "%(obj)a", "%(w)x", "%(a)*d", "%(kéy)s"]))
+        parts.append(rng.choice(["%(a)s", "%(b)r", "%(obj)s", "%(missing)s", "%(a)d", "%(n)5.2f", "%s", "%(a)", "%(obj)a", "%(w)x", "%(a)*d", "%(kéy)s",
+                                 "%(system)s", "%(system)r", "%(time)s", "%(time)d", "%(why)s", "%(failure)s", "%(message)s", "%(isError)d"]))
     return "".join(parts)
 
 
@@ -387,23 +393,32 @@ def g_event(rng):
 
 
 def g_legacy(rng):
+    """Legacy event dict, by the branch of textFromEventDict that will read it: "error" (empty message, true isError,
+    a failure: reads why + failure), "format" (empty message, a %-format: reads every key the format mentions, also
+    system / time), "message" (reads the message items).  Hostile value kinds go into every field that branch reads.
+    Not generated: a raising __bool__ (the unchanged `if why:` / `if not edm:` do not survive it - truthiness is not
+    among the statement's "str, repr or format")."""
+    branch = rng.choice(["error", "error", "format", "format", "message"])
     fields = [[["str", name], g_value(rng)] for name in rng.sample(["a", "b", "obj", "n", "w", "kéy"], rng.randrange(0, 5))]
-    n = rng.choice([0, 0, 1, 2, 3])
+    n = 0 if branch != "message" else rng.choice([1, 1, 2, 3])
     fields.append([["str", "message"], ["tuple", [g_value(rng) for _ in range(n)]]])
-    fields.append([["str", "isError"], rng.choice([["int", 0], ["int", 1], ["bool", 1], ["bool", 0]])])
-    if rng.random() < 0.6:
+    err = branch == "error" or rng.random() < 0.3
+    fields.append([["str", "isError"], rng.choice([["int", 1], ["bool", 1]]) if err else rng.choice([["int", 0], ["bool", 0]])])
+    if branch == "format" or rng.random() < 0.3:
         fv, kind = g_formatvalue(rng, g_pformat(rng))
         fields.append([["str", "format"], fv])
-    if rng.random() < 0.5:
-        fields.append([["str", "failure"], rng.choice([["failure", rng.choice(EXC)], ["failure_notb", "EvilStr"], ["int", 1], ["none"], g_notfailure(rng),
+    if branch == "error" or rng.random() < 0.3:
+        fields.append([["str", "failure"], rng.choice([["failure", rng.choice(EXC)], ["failure_notb", "EvilStr"], ["int", 1], ["none"], g_notfailure(rng), g_notfailure(rng),
                                                         ["fakefailure", ["raise", rng.choice(EXC)]], ["fakefailure", ["raise", "EvilStr"]], ["fakefailure", ["ok"]]])])
-    if rng.random() < 0.4:
-        fields.append([["str", "why"], rng.choice([["str", "because"], ["str", ""], ["none"], ["bytes", "wh\xffy"], ["int", 0],
-                                                    ["H", {"str": ["raise", rng.choice(EXC)]}], ["H", {"str": ["ret", ["int", 1]]}]])])
-    fields.append([["str", "time"], rng.choice(TIMES)])
+    if (branch == "error" and rng.random() < 0.85) or rng.random() < 0.2:
+        fields.append([["str", "why"], rng.choice([["str", "because"], ["str", ""], ["none"], ["bytes", "wh\xffy"], ["int", 0], ["list", [g_hostile(rng)]],
+                                                    ["H", {"str": ["raise", rng.choice(EXC)]}], ["H", {"str": ["ret", ["int", 1]]}], ["H", {"str": ["ret", ["bytes", "by\xfftes"]]}],
+                                                    ["H", {"format": ["raise", rng.choice(EXC)]}], ["H", {"format": ["ret", ["bytes", "b"]]}],
+                                                    ["H", {"repr": ["raise", rng.choice(EXC)], "str": ["raise", "EvilStr"]}], g_hostile(rng), g_hostile(rng)])])
+    fields.append([["str", "time"], rng.choice(TIMES) if rng.random() < 0.6 else g_hostile(rng)])
     fields.append([["str", "system"], rng.choice([["str", "-"], g_hostile(rng)])])
     rng.shuffle(fields)
-    return {"fields": fields}
+    return {"fields": fields, "branch": branch}
 
 
 import re
@@ -596,10 +611,43 @@ def field_of(ev, name):
     return [None]
 
 
+def legacy_field_stats(ctx, lg):
+    """One counter per field of the legacy event that holds a hostile value AND is read by the branch taken."""
+    get = lambda name: field_of(lg, name)
+    msg = get("message")
+    empty = not msg[1]
+    is_err = get("isError")[1] in (1, True)
+    has_failure = get("failure") != [None]
+    fmt = get("format")
+    if not empty:
+        branch = "message"
+        if any(is_hostile_recipe(x) for x in msg[1]):
+            ctx.count("legacy_hostile_message_items")
+    elif is_err and has_failure:
+        branch = "error"
+        if is_hostile_recipe(get("why")):
+            ctx.count("legacy_hostile_why")
+        if is_hostile_recipe(get("failure")):
+            ctx.count("legacy_hostile_failure")
+    elif fmt != [None]:
+        branch = "format"
+        text = fmt[1] if fmt[0] in ("str", "bytes") and isinstance(fmt[1], str) else ""
+        for name in ("system", "time", "why", "failure"):
+            if "%(" + name + ")" in text and is_hostile_recipe(get(name)):
+                ctx.count("legacy_hostile_%s_via_format_key" % name.replace("why", "other").replace("failure", "other"))
+        for name in ("a", "b", "obj", "n", "kéy"):
+            if "%(" + name + ")" in text and is_hostile_recipe(get(name)):
+                ctx.count("legacy_hostile_format_keys")
+    else:
+        branch = "none"
+    ctx.count("legacy_branch_" + branch)
+
+
 def check_legacy(ctx, lg):
     from twisted.python.log import textFromEventDict
 
     stats = [0]
+    legacy_field_stats(ctx, lg)
     kind, res = outcome(textFromEventDict, lg, stats)
     ctx.count("legacy_calls")
     ctx.count("calls")
@@ -643,7 +691,7 @@ def run(ctx):
             hostile_field_stats(ctx, ev)
         check_event(ctx, case, calls)
         ctx.evaluated(len(calls))
-        if i % 4 == 0:
+        if i % 2 == 0:
             lg = g_legacy(rng)
             check_legacy(ctx, lg)
             ctx.evaluated()
